@@ -266,7 +266,17 @@ func dirmodel(r *core.Run, cfg dmConfig) {
 		r.Knob("concurrent_mutator", concurrent)
 	}
 	r.Knob("auto_refresh", auto)
-	e := newEnv(r, sched.Config{SwitchDen: 1 + src.Intn(3)}, cred)
+	// scale: one run in thirty has a CROWDED directory (130-250 entries, up to
+	// half of them failing Spec files, a few non-Spec names in between): code
+	// that reads directories in batches, caps a list or a report, or pre-sizes
+	// a buffer behaves differently only there
+	crowded := src.Bool(1, 30)
+	maxSteps := 0
+	if crowded {
+		maxSteps = 600000
+		r.Knob("crowded_directory", true)
+	}
+	e := newEnv(r, sched.Config{SwitchDen: 1 + src.Intn(3), MaxSteps: maxSteps}, cred)
 	if src.Bool(1, 3) {
 		// coarse file time stamps: everything written in one run has the same modification time
 		e.w.FS.MtimeGranularity = 1 << 20
@@ -311,6 +321,32 @@ func dirmodel(r *core.Run, cfg dmConfig) {
 	np := src.Intn(7)
 	for i := 0; i < np; i++ {
 		d.anyChange()
+	}
+	if dirs := d.existingDirs(); crowded && len(dirs) > 0 {
+		dir := dirs[src.Intn(len(dirs))]
+		n := 130 + src.Intn(121)
+		badDen := []int{8, 2}[src.Intn(2)]
+		for i := 0; i < n; i++ {
+			name := fmt.Sprintf("c%03d%s", i, []string{".json", ".yaml"}[i%2])
+			switch {
+			case i%41 == 7:
+				// (a registered content: a later rename may give the file a Spec name)
+				d.writeFile(fmt.Sprintf("%s/c%03d.txt", dir, i), d.reg.Invalid(src, "garbage").Content)
+				continue
+			case i%97 == 50:
+				e.admin.MkdirAll(fmt.Sprintf("%s/c%03d.d", dir, i), 0o755)
+				continue
+			}
+			var m *gen.Meta
+			if src.Bool(1, badDen) {
+				m = d.reg.Invalid(src, "")
+			} else {
+				m = d.reg.Valid(src, i%2 == 0, gen.Opts{Vendors: []string{fmt.Sprintf("v%03d.org", i)}})
+			}
+			d.writeFile(dir+"/"+name, m.Content)
+		}
+		r.Notef("crowded: %d entries written to %s (one in %d invalid)", n, dir, badDen)
+		r.Probe("crowded_directory")
 	}
 	src.End()
 	// create the cache; the directories are sometimes given in a spelling that is not clean
